@@ -121,12 +121,15 @@ def getSliceString (a : ArrState) (pos : List Nat) : Option ArrState :=
       | none => none
     | _, _ => none) (some ⟨[], []⟩)
 
+/-- one step of `a == b`: both strings are looked up, each in its own table -/
+def eqStep (a b : ArrState) (i : Nat) (acc : Option (List Bool)) : Option (List Bool) :=
+  match getitemString a i, getitemString b i, acc with
+  | some x, some y, some l => some ((x == y) :: l)
+  | _, _, _ => none
+
 /-- `a == b` element-wise (strings compared through BOTH tables); `none`: a lookup failed -/
 def eqArrays (a b : ArrState) : Option (List Bool) :=
-  (List.range a.idx.length).foldr (fun i acc =>
-    match getitemString a i, getitemString b i, acc with
-    | some x, some y, some l => some ((x == y) :: l)
-    | _, _, _ => none) (some [])
+  (List.range a.idx.length).foldr (eqStep a b) (some [])
 
 /-- `a == s`: `hasString` then index comparison -/
 def eqString (a : ArrState) (s : String) : List Bool :=
